@@ -1,4 +1,5 @@
 import SE.Driver.Escape
+import SE.Driver.Line
 /-
 sedriver: the line-protocol front end of the executable models. One operation per input
 line, one result line per operation. It executes the very definitions the theorems in
@@ -12,12 +13,13 @@ def step (line : String) : String :=
   | cmd :: args =>
     match cmd with
     | "escape" => escapeCmd args
+    | "parse" => parseCmd args
     | _ => "bad-op"
 
 partial def loop (h : IO.FS.Stream) (out : IO.FS.Stream) : IO Unit := do
   let line ← h.getLine
   if line.isEmpty then return ()
-  let line := if line.back == '\n' then line.dropRight 1 else line
+  let line := (line.dropEndWhile (· == '\n')).toString
   out.putStrLn (step line)
   loop h out
 
